@@ -14,7 +14,7 @@ import (
 // PIPE-1 — every compile step is applied to every node.
 
 func init() {
-	register(&Rule{ID: "PIPE-1", Min: 13, Run: runPIPE1,
+	register(&Rule{ID: "PIPE-1", Min: 8, Run: runPIPE1,
 		Doc: "every compile step is applied to every node: in schemaCompiler.compileNode each call of a step (a method of the compiler taking the node) that stands outside the branch for container nodes is on every path from entry to a normal return — a step can be left only by panicking; an early return for \"nodes that need nothing more\" (a node of type any, a node without rules) silently skips the steps after it, such as the one that records the node's key as required in its parent"})
 }
 
